@@ -48,8 +48,8 @@ def checkC03 (c : HCase) (obs : List StepObs) : Verdict :=
         | some t, some (_, txt) =>
           let sch := t.abs.bind
           if !(plainNames sch && t.abs.noPrefixClash) then .ok else
-          match readProgram txt with
-          | none => .prop "rendered text is not a sequence of struct items"
+          match readProgramN txt with
+          | none => .corr "the model's reader cannot read the rendered text as a sequence of struct items"
           | some prog =>
             match schemaOfProgram prog with
             | none => .prop "field types of the rendered structs do not resolve"
@@ -76,8 +76,8 @@ def checkC01 (c : HCase) (obs : List StepObs) : Verdict :=
         | some (_, txt) =>
           if c.docs.any (fun d => match d.res with | .error _ => true | .ok _ => false) then
             .prop "error on a well-formed document"
-          else match readProgram txt with
-          | none => .prop "rendered text is not a sequence of struct items"
+          else match readProgramN txt with
+          | none => .corr "the model's reader cannot read the rendered text as a sequence of struct items"
           | some prog =>
             match schemaOfProgram prog with
             | none => .prop "field types of the rendered structs do not resolve"
@@ -95,8 +95,8 @@ def checkC04 (c : HCase) (obs : List StepObs) : Verdict :=
     if !Elem.namesOK t then .gen "names-outside-C04-domain" else
     firstBad [
       fun _ => firstBad ((c.renders.zipIdx).map fun ((_, txt), i) => fun _ =>
-        match readProgram txt with
-        | none => .prop s!"entry={i} rendered text is not a sequence of struct items"
+        match readProgramN txt with
+        | none => .corr s!"entry={i}: the model's reader cannot read the rendered text as a sequence of struct items"
         | some prog => if decide (WellFormed prog) then .ok else .prop s!"entry={i} not well-formed: {wfReason prog}"),
       fun _ => renderCorr (some t) c.renders,
       fun _ => historyCorr 2 obs ]
@@ -145,7 +145,10 @@ def checkC08 (c : HCase) (obs : List StepObs) : Verdict :=
       match expected, s.implRes with
       | none, .ok _ => .ok
       | some e, .error m =>
-        if e.display == m then .ok else .prop s!"step={i} error text {repr (showName m)} but the first fault is {repr (showName e.display)}"
+        -- the property is about what the error carries (variant, reader's error, byte position); the wording of
+        -- `Display` is the implementation's own and only compared with the model's
+        if e.carried != d.carried then .prop s!"step={i} the error carries {repr (showName d.carried)} but the first fault is {repr (showName e.carried)}"
+        else if e.display == m then .ok else .corr s!"error-text step={i} model={repr (showName e.display)} impl={repr (showName m)}"
       | none, .error m => .prop s!"step={i} error {repr (showName m)} on an input without fault"
       | some e, .ok _ => .prop s!"step={i} Ok although the input has the fault {repr (showName e.display)}"),
     fun _ => historyCorr 2 obs ]
@@ -173,8 +176,8 @@ def checkC09 (c : HCase) (obs : List StepObs) : Verdict :=
       fun _ => domEventsOk c.docs,
       fun _ => match unsorted with
         | none => .gen "no-unsorted-render"
-        | some (_, txt) => match readProgram txt with
-          | none => .prop "unsorted text unreadable"
+        | some (_, txt) => match readProgramN txt with
+          | none => .corr "the model's reader cannot read the unsorted text"
           | some prog => match schemaOfProgram prog with
             | none => .prop "unsorted: types do not resolve"
             | some ps =>
@@ -183,8 +186,8 @@ def checkC09 (c : HCase) (obs : List StepObs) : Verdict :=
               else .ok,
       fun _ => match sorted with
         | none => .ok
-        | some (_, txt) => match readProgram txt with
-          | none => .prop "sorted text unreadable"
+        | some (_, txt) => match readProgramN txt with
+          | none => .corr "the model's reader cannot read the sorted text"
           | some prog => match schemaOfProgram prog with
             | none => .prop "sorted: types do not resolve"
             | some ps =>
@@ -192,7 +195,7 @@ def checkC09 (c : HCase) (obs : List StepObs) : Verdict :=
               else if preorderNames prog (prog.length + 1) ((prog.head?.map (·.name)).getD []) != prog.map (·.name) then .prop "sorted: struct definitions are not in pre-order"
               else .ok,
       fun _ => match unsorted, sorted with
-        | some (_, t1), some (_, t2) => match readProgram t1, readProgram t2 with
+        | some (_, t1), some (_, t2) => match readProgramN t1, readProgramN t2 with
           | some p1, some p2 => if progBag p1 == progBag p2 then .ok else .prop "sorting changed more than the order"
           | _, _ => .ok
         | _, _ => .ok,
@@ -215,7 +218,7 @@ def checkC10 (c : HCase) (obs : List StepObs) : Verdict :=
   | some t =>
     if !Elem.inAlphabet t then .gen "names-outside-alphabet" else
     match readAll c.renders with
-    | none => .prop "some rendering is not a sequence of struct items"
+    | none => .corr "the model's reader cannot read some rendering as a sequence of struct items"
     | some progs =>
       firstBad [
         fun _ => firstBad ((progs.zipIdx).map fun ((o, prog), i) => fun _ =>
@@ -239,41 +242,37 @@ def checkC10 (c : HCase) (obs : List StepObs) : Verdict :=
         fun _ => renderCorr (some t) c.renders ]
 
 /-! ### C14 -/
-def allDigits (n : Name) : Bool := n.all isDigit
-
-/-- `name` = the last `j+1` trace items joined, plus digits, for some `j` -/
+/-- `name` = the last `j+1` trace items joined, plus a suffix, for some `j`. The property leaves the form of the suffix
+open ("optionally followed by a disambiguating suffix"), so any string counts here; that it disambiguates something
+is `suffixNeeded`. -/
 def nameShapeOk (trace : List Name) (name : Name) : Bool :=
   (List.range trace.length).any fun j =>
-    match stripPrefix? ((trace.drop (trace.length - (j + 1))).flatten) name with
-    | some rest => allDigits rest
-    | none => false
+    (stripPrefix? ((trace.drop (trace.length - (j + 1))).flatten) name).isSome
 
-/-- some way of reading `name` as "last `j+1` trace items + digits" uses only as many ancestors as are needed:
+/-- some way of reading `name` as "last `j+1` trace items + suffix" uses only as many ancestors as are needed:
 `j = 0`, or the positions of this PascalCase name are not yet separated by `j` items (own name + `j-1` ancestors) -/
 def qualificationNeeded (all : List (Name × List Name)) (trace : List Name) (own : Name) (name : Name) : Bool :=
   let group := traceGroup all own
   let minLen := (group.map List.length).min?.getD 0
   (List.range trace.length).any fun j =>
-    (match stripPrefix? ((trace.drop (trace.length - (j + 1))).flatten) name with
-     | some rest => allDigits rest
-     | none => false) &&
+    (stripPrefix? ((trace.drop (trace.length - (j + 1))).flatten) name).isSome &&
     (j == 0 || j > minLen || !decide ((group.map (traceBuffer j)).Nodup))
 
-/-- some way of reading `name` as "last `j+1` trace items + digits" has no digits, or its unsuffixed part is a
+/-- some way of reading `name` as "last `j+1` trace items + suffix" has no suffix, or its unsuffixed part is a
 reserved name or the name of another struct of the output: the suffix disambiguates something -/
 def suffixNeeded (others : List Name) (trace : List Name) (name : Name) : Bool :=
   (List.range trace.length).any fun j =>
     let base := (trace.drop (trace.length - (j + 1))).flatten
     match stripPrefix? base name with
-    | some rest => allDigits rest && (rest.isEmpty || reservedStructNames.contains base || others.contains base)
+    | some rest => rest.isEmpty || reservedStructNames.contains base || others.contains base
     | none => false
 
 def checkC14 (c : HCase) (obs : List StepObs) : Verdict :=
   match finalImplTree obs, c.renders.find? (fun r => r.1.sort == .unsorted) with
   | some t, some (_, txt) =>
     if !Elem.inAlphabet t then .gen "names-outside-alphabet" else
-    match readProgram txt with
-    | none => .prop "rendered text is not a sequence of struct items"
+    match readProgramN txt with
+    | none => .corr "the model's reader cannot read the rendered text as a sequence of struct items"
     | some prog =>
       let entries := walk .unsorted [] [] t
       let all := fillNames [] t
@@ -281,15 +280,15 @@ def checkC14 (c : HCase) (obs : List StepObs) : Verdict :=
       firstBad [
         fun _ => firstBad (((prog.zip entries).zipIdx).map fun ((s, en), i) => fun _ =>
           let own := pascal en.elem.name
-          if !nameShapeOk en.trace s.name then .prop s!"struct {showName s.name} is not ancestors+own name+digits for path {String.intercalate "/" (en.path.map showName)}"
-          else if i = 0 && !(match stripPrefix? own s.name with | some r => allDigits r | none => false) then
+          if !nameShapeOk en.trace s.name then .prop s!"struct {showName s.name} is not ancestors + own name + suffix for path {String.intercalate "/" (en.path.map showName)}"
+          else if i = 0 && !(stripPrefix? own s.name).isSome then
             .prop s!"first struct {showName s.name} is not the root element's name"
-          else if (all.filter (fun p => p.1 = own)).length = 1 && !(match stripPrefix? own s.name with | some r => allDigits r | none => false) then
+          else if (all.filter (fun p => p.1 = own)).length = 1 && !(stripPrefix? own s.name).isSome then
             .prop s!"struct {showName s.name}: the name {showName own} occurs once in the tree but is qualified"
           else if !qualificationNeeded all en.trace own s.name then
             .prop s!"struct {showName s.name} is qualified by more ancestors than are needed to separate the positions of {showName own}"
           else if !suffixNeeded (((prog.zipIdx).filter fun (_, k) => k != i).map fun (s', _) => s'.name) en.trace s.name then
-            .prop s!"struct {showName s.name} carries a numeric suffix although its unsuffixed name is neither reserved nor the name of another struct"
+            .prop s!"struct {showName s.name} carries a suffix although its unsuffixed name is neither reserved nor the name of another struct"
           else .ok),
         fun _ => renderCorr (some t) c.renders ]
   | _, _ => .gen "no-tree-or-render"
